@@ -322,7 +322,9 @@ func cyclePrograms(r *rng.R, k int) []cycleCase {
 var tokenDict = []string{"struct", "union", "exception", "enum", "typedef", "const", "service", "extends", "include", "namespace",
 	"required", "optional", "oneway", "void", "throws", "list", "set", "map", "bool", "byte", "i8", "i16", "i32", "i64", "double", "string", "binary",
 	"{", "}", "(", ")", "<", ">", "[", "]", ",", ";", ":", "=", "*", "true", "false", "0", "1", "-1", "65536", "0x7fffffff", "1.5", "\"s\"", "'q'",
-	"T1", "S2", "a.S", "b.T1", "x", "9223372036854775808", "-", "+", ".", "/*", "*/", "//", "#", "\"", "'", "\\", "\n", "go", "py.name"}
+	"T1", "S2", "a.S", "b.T1", "x", "9223372036854775808", "-", "+", ".", "/*", "*/", "//", "#", "\"", "'", "\\", "\n", "go", "py.name",
+	// documentation comments in every degenerate form (they are parsed, unindented and attached to the next definition)
+	"/** */", "/***/", "/**\n */", "/**\n *\n */", "/**\n\n*/", "/** \t\n \t */", "/**\n * a\n */", "/**\n  b\n    c\n */", "/**/", "/** * */"}
 
 func tokenize(s string) []string {
 	var toks []string
